@@ -381,6 +381,9 @@ Section Update.
              Ok (nexthop_norm (firstn (nat_of nhl) d1))
            else if (nhl =? 12) || (nhl =? 24) then
              Ok (nexthop_norm (skipn 8 (firstn (nat_of nhl) d1)))
+           else if nhl =? 48 then
+             (* VPN-IPv6 global + link-local (RFC 4659 3.2.1.1): two RD + address pairs (f31dea6) *)
+             Ok (nexthop_norm (firstn 16 (skipn 8 d1) ++ firstn 16 (skipn 32 d1)))
            else Fail E_OPT_ATTR) ;;
     '(_, d2) <- must 25 (get8 (skipn (nat_of nhl) d1)) ;;
     entries <- nlri_list other_nlri fam ap true d2 ;;
